@@ -90,6 +90,13 @@ structure State where
 def order (n w : Nat) : List Nat :=
   (List.range' (w + 1) (n - (w + 1))) ++ List.range' 0 (min w n)
 
+/-- `if self.deactivate_worker() == 0` in `get_work`: the value of the counter at which a worker concludes
+that nothing is left and broadcasts `Quit` (source-anchored: bin/check re-extracts it from walk.rs). -/
+def quiescentCount : Nat := 0
+
+/-- `fetch_sub(1, …)` / `fetch_add(1, …)` in `deactivate_worker` / `activate_worker` (source-anchored). -/
+def counterStep : Nat := 1
+
 /-- Where a received message goes: `activate_worker()` first when received in the idle loop. -/
 def afterRecv (wait : Bool) (m : Msg) : Pc :=
   if wait then .activate m else .check (some m)
@@ -127,7 +134,7 @@ inductive Step (n : Nat) : State → Nat → State → Prop where
   /-- `activate_worker()` -/
   | activate {s : State} {w : Nat} {m : Msg} :
       w < n → s.pc w = .activate m →
-      Step n s w { s with pc := upd s.pc w (.check (some m)), active := s.active + 1 }
+      Step n s w { s with pc := upd s.pc w (.check (some m)), active := s.active + counterStep }
   /-- `is_quit_now()` reads `true`: whatever was received is replaced by `Quit` -/
   | checkQuitNow {s : State} {w : Nat} {v : Option Msg} :
       s.quitNow = true → w < n → s.pc w = .check v →
@@ -165,12 +172,12 @@ inductive Step (n : Nat) : State → Nat → State → Prop where
       Step n s w { s with pc := upd s.pc w (.recv false), quitNow := true }
   /-- `deactivate_worker()` returns 0: this worker broadcasts `Quit` -/
   | deactZero {s : State} {w : Nat} :
-      s.active - 1 = 0 → w < n → s.pc w = .deact →
-      Step n s w { s with pc := upd s.pc w (.sendQuit false), active := s.active - 1 }
+      s.active - counterStep = quiescentCount → w < n → s.pc w = .deact →
+      Step n s w { s with pc := upd s.pc w (.sendQuit false), active := s.active - counterStep }
   /-- `deactivate_worker()` returns non-zero: enter the idle loop -/
   | deactWait {s : State} {w : Nat} :
-      s.active - 1 ≠ 0 → w < n → s.pc w = .deact →
-      Step n s w { s with pc := upd s.pc w (.recv true), active := s.active - 1 }
+      s.active - counterStep ≠ quiescentCount → w < n → s.pc w = .deact →
+      Step n s w { s with pc := upd s.pc w (.recv true), active := s.active - counterStep }
   /-- `send_quit()` (the consumed / generated `Quit` is pushed on the own deque) -/
   | sendQuit {s : State} {w : Nat} {c : Bool} :
       w < n → s.pc w = .sendQuit c →
@@ -234,7 +241,7 @@ def stepFn (n : Nat) (s : State) (w : Nat) (a : Act) : Option State :=
     | .steal b (_ :: vs), .stealFail => some { s with pc := upd s.pc w (.steal b vs) }
     | .steal b [], .go => some { s with pc := upd s.pc w (if b then .sleep else .check none) }
     | .sleep, .go => some { s with pc := upd s.pc w (.recv true) }
-    | .activate m, .go => some { s with pc := upd s.pc w (.check (some m)), active := s.active + 1 }
+    | .activate m, .go => some { s with pc := upd s.pc w (.check (some m)), active := s.active + counterStep }
     | .check v, .go =>
       if s.quitNow then some { s with pc := upd s.pc w (.sendQuit true) }
       else match v with
@@ -250,9 +257,9 @@ def stepFn (n : Nat) (s : State) (w : Nat) (a : Act) : Option State :=
     | .running [], .go => some { s with pc := upd s.pc w (.recv false) }
     | .setQuit, .go => some { s with pc := upd s.pc w (.recv false), quitNow := true }
     | .deact, .go =>
-      if s.active - 1 = 0 then
-        some { s with pc := upd s.pc w (.sendQuit false), active := s.active - 1 }
-      else some { s with pc := upd s.pc w (.recv true), active := s.active - 1 }
+      if s.active - counterStep = quiescentCount then
+        some { s with pc := upd s.pc w (.sendQuit false), active := s.active - counterStep }
+      else some { s with pc := upd s.pc w (.recv true), active := s.active - counterStep }
     | .sendQuit c, .go =>
       some { s with pc := upd s.pc w (.exiting c), dq := upd s.dq w (.quit :: s.dq w) }
     | .exiting c, .go => some { s with pc := upd s.pc w (.exited c) }
